@@ -267,6 +267,8 @@ Proof.
     destruct (enc_entries chg es (ovf ++ extra)) as [rest ovf'] eqn:E.
     injection H as <- _. inversion F as [|? ? Hid F']; subst.
     pose proof (enc_parents_len (ce_parents e) (N.of_nat (length ovf))) as Lp. rewrite Ep in Lp. cbn [fst] in Lp.
+    change (length (le32 (ce_gen e) ++ pb ++ le32 (index_of (ce_change e) chg 0) ++ ce_id e ++ rest) =
+            (length (e :: es) * (C18_GRAPH_ENTRY_FIXED_SIZE + length (ce_id e)))%nat).
     rewrite !app_length, !le32_length, Lp, (IH _ _ _ E F'), entry_size. cbn [length]. lia.
 Qed.
 
@@ -349,4 +351,103 @@ Lemma index_of_le k : forall l i, index_of k l i <= i + N.of_nat (length l).
 Proof.
   induction l as [|k' l IH]; intros i; cbn [index_of length]; [lia|].
   destruct (bytes_eqb k k'); [lia|]. specialize (IH (i + 1)). lia.
+Qed.
+
+Theorem entries_roundtrip_tail chg idlen : forall es ovf graph povf tail,
+  enc_entries chg es ovf = (graph, povf) ->
+  Forall (entry_ok idlen) es -> N.of_nat (length povf) < C18_OVERFLOW_FLAG ->
+  (forall e, In e es -> index_of (ce_change e) chg 0 <= U32MAX) ->
+  forall i e, nth_error es i = Some e ->
+    dec_entry idlen (graph ++ tail) povf i =
+      (ce_gen e, ce_parents e, index_of (ce_change e) chg 0, ce_id e).
+Proof.
+  induction es as [|e0 es IH]; intros ovf graph povf tail H F Ho Hc i e Hi; [now destruct i|].
+  cbn [enc_entries] in H.
+  destruct (enc_parents (ce_parents e0) (N.of_nat (length ovf))) as [pb extra] eqn:Ep.
+  destruct (enc_entries chg es (ovf ++ extra)) as [rest ovf'] eqn:E.
+  injection H as <- <-. inversion F as [|? ? (Hid & Hg & Hp & Hl) F']; subst.
+  destruct (enc_entries_ovf _ _ _ _ _ E) as (more & Eo).
+  assert (Lpb : length pb = 8%nat).
+  { pose proof (enc_parents_len (ce_parents e0) (N.of_nat (length ovf))) as L. now rewrite Ep in L. }
+  destruct i as [|i].
+  - injection Hi as <-.
+    change (dec_entry (length (ce_id e0))
+              ((le32 (ce_gen e0) ++ pb ++ le32 (index_of (ce_change e0) chg 0) ++ ce_id e0 ++ rest) ++ tail) ovf' 0 =
+            (ce_gen e0, ce_parents e0, index_of (ce_change e0) chg 0, ce_id e0)).
+    rewrite <- !app_assoc.
+    rewrite (dec_entry_head (length (ce_id e0))) by (try reflexivity; assumption).
+    rewrite !de32_le32 by (try assumption; apply Hc; now left).
+    f_equal. f_equal. f_equal.
+    pose proof (dec_enc_parents (ce_parents e0) ovf more Hp) as D. rewrite Ep in D.
+    rewrite Eo, <- app_assoc. apply D; [|assumption]. rewrite Eo, !app_length in Ho. lia.
+  - cbn [nth_error] in Hi.
+    change (dec_entry (length (ce_id e0))
+              ((le32 (ce_gen e0) ++ pb ++ le32 (index_of (ce_change e0) chg 0) ++ ce_id e0 ++ rest) ++ tail) ovf' (S i) =
+            (ce_gen e, ce_parents e, index_of (ce_change e) chg 0, ce_id e)).
+    replace ((le32 (ce_gen e0) ++ pb ++ le32 (index_of (ce_change e0) chg 0) ++ ce_id e0 ++ rest) ++ tail)
+      with ((le32 (ce_gen e0) ++ pb ++ le32 (index_of (ce_change e0) chg 0) ++ ce_id e0) ++ (rest ++ tail))
+      by (now rewrite <- !app_assoc).
+    rewrite dec_entry_tail by (rewrite !app_length, Lpb, !le32_length; lia).
+    exact (IH (ovf ++ extra) rest ovf' tail E F' Ho (fun e' He' => Hc e' (or_intror He')) i e Hi).
+Qed.
+
+Lemma map_seq_nth_gen (es : list centry) :
+  map (fun i => let e := nth i es (mk_centry [] [] 0 []) in (ce_gen e, ce_parents e, ce_id e))
+      (seq 0 (length es)) = map (fun e => (ce_gen e, ce_parents e, ce_id e)) es.
+Proof.
+  induction es as [|x l IH] using rev_ind; [reflexivity|].
+  rewrite app_length. cbn [length]. rewrite Nat.add_1_r, seq_S, !map_app. cbn [map Nat.add].
+  rewrite app_nth2 by lia. rewrite Nat.sub_diag. cbn [nth]. f_equal.
+  rewrite <- IH. apply map_ext_in. intros i Hi. apply in_seq in Hi. now rewrite app_nth1 by lia.
+Qed.
+
+(** writing a segment and reading the file back: the parent file name and every commit's
+    generation, parents and id come back, under the writer's own bounds *)
+Theorem file_roundtrip idlen chlen parent es graph povf cpos covf :
+  let hl := change_lookup es in
+  enc_entries (map fst hl) es [] = (graph, povf) -> enc_change_pos hl [] = (cpos, covf) ->
+  Forall (entry_ok idlen) es -> (forall e, In e es -> length (ce_change e) = chlen) ->
+  NoDup (map ce_id es) ->
+  N.of_nat (length parent) <= U32MAX -> N.of_nat (length es) <= U32MAX ->
+  N.of_nat (length hl) <= U32MAX -> N.of_nat (length povf) < C18_OVERFLOW_FLAG ->
+  N.of_nat (length covf) <= U32MAX ->
+  decode_file idlen chlen (encode_file parent es) =
+  Some (parent, map (fun e => (ce_gen e, ce_parents e, ce_id e)) es).
+Proof.
+  intros hl Eg Ec F Fc ND Bp Bn Bh Bo Bv. unfold encode_file, encode_local. fold hl. rewrite Eg, Ec.
+  pose proof flag_val as FV.
+  assert (Lg : length graph = (length es * (C18_GRAPH_ENTRY_FIXED_SIZE + idlen))%nat).
+  { apply (enc_entries_len _ idlen _ _ _ _ Eg). eapply Forall_impl; [|exact F]. intros e He. apply He. }
+  assert (La : length (flat_map (fun e => le32 (snd e)) (commit_lookup es)) = (length es * 4)%nat).
+  { rewrite <- (commit_lookup_len es ND). generalize (commit_lookup es). clear.
+    induction l as [|x l IH]; [reflexivity|]. cbn [flat_map length]. rewrite app_length, IH, le32_length. lia. }
+  assert (Lb : length (flat_map fst hl) = (length hl * chlen)%nat).
+  { apply flat_fst_len. intros k Hk. destruct (change_lookup_keys es k Hk) as (e & He & <-). now apply Fc. }
+  assert (Lc : length cpos = (length hl * 4)%nat).
+  { pose proof (enc_change_pos_len hl []) as L. now rewrite Ec in L. }
+  assert (Bx : forall x, In x povf -> x <= U32MAX).
+  { intros x Hx. clear - Eg F Hx FV.
+    assert (G : forall es ovf graph povf, enc_entries (map fst hl) es ovf = (graph, povf) ->
+              Forall (entry_ok idlen) es -> (forall x, In x ovf -> x < C18_OVERFLOW_FLAG) ->
+              forall x, In x povf -> x < C18_OVERFLOW_FLAG).
+    { induction es0 as [|e es0 IH]; intros ovf g0 p0 H F0 Ho y Hy; cbn [enc_entries] in H.
+      - injection H as _ <-. now apply Ho.
+      - destruct (enc_parents (ce_parents e) (N.of_nat (length ovf))) as [pb extra] eqn:Ep.
+        destruct (enc_entries (map fst hl) es0 (ovf ++ extra)) as [rest ovf'] eqn:E.
+        injection H as _ <-. inversion F0 as [|? ? (_ & _ & Hp & _) F0']; subst.
+        apply (IH _ _ _ E F0'); [|assumption]. intros z Hz. apply in_app_or in Hz.
+        destruct Hz as [Hz|Hz]; [now apply Ho|]. apply Hp.
+        destruct (ce_parents e) as [|p1 [|p2 [|p3 ps]]]; cbn [enc_parents] in Ep;
+          injection Ep as _ <-; try contradiction. exact Hz. }
+    pose proof (G es [] graph povf Eg F (fun x H => match H with end) x Hx). unfold U32MAX. lia. }
+  rewrite (decode_file_struct idlen chlen parent graph _ _ cpos (length es) (length hl) povf covf);
+    try assumption; [|unfold U32MAX in *; lia].
+  f_equal. f_equal.
+  rewrite <- (map_seq_nth_gen es).
+  apply map_ext_in. intros i Hi. apply in_seq in Hi.
+  destruct (nth_error es i) as [e|] eqn:En; [|apply nth_error_None in En; lia].
+  rewrite (entries_roundtrip_tail (map fst hl) idlen es [] graph povf _ Eg F Bo) with (e := e);
+    [|intros e' _; pose proof (index_of_le (ce_change e') (map fst hl) 0) as I0;
+      rewrite map_length in I0; lia|assumption].
+  now rewrite (nth_error_nth es i _ En).
 Qed.
